@@ -1,4 +1,5 @@
-// C07 round 3: saga.Run (saga1Dense, saga1Sparse, saga2Dense, saga2Sparse) under the
+// C07 round 3/4: saga.Run (saga1Dense, saga1Sparse, saga2Dense, saga2Sparse; round 4: sagaJit with
+// JitUpdateL1, routine "sagajit", Mode "Jit") under the
 // oracle log.  The per-sample objective is least squares on logged data,
 // f_j(x) = 0.5 (a_j.x - b_j)^2: saga1 returns (y, w = a_j.x - b_j, g = a_j), saga2
 // returns (y, w a_j).  Logged: every call of f (j, x1, answer), every hook call
@@ -112,6 +113,8 @@ func runSaga(s *Spec) (run *Run) {
 	}
 	args := []interface{}{saga.Gamma{Value: s.Step0}, saga.Epsilon{Value: s.Eps}, saga.MaxIterations{Value: s.MaxIt}, saga.Seed{Value: s.Seed}}
 	switch s.Mode {
+	case "Jit": // sagaJit: JitUpdateL1 with lambda = Eta0, no proximal operator
+		args = append(args, saga.JitUpdate{Value: &saga.JitUpdateL1{Lambda: s.Eta0}})
 	case "L1":
 		args = append(args, saga.L1Regularization{Value: s.Eta0})
 	case "L2":
@@ -139,7 +142,7 @@ func runSaga(s *Spec) (run *Run) {
 			y, w, g, e := sample(j, x)
 			return y, w, ad.DenseFloat64Vector(g), e
 		})
-	case "saga1s":
+	case "saga1s", "sagajit":
 		f = saga.Objective1Sparse(func(j int, x ad.DenseFloat64Vector) (float64, float64, ad.SparseConstFloat64Vector, error) {
 			y, w, g, e := sample(j, x)
 			if e != nil {
@@ -172,7 +175,7 @@ func runSaga(s *Spec) (run *Run) {
 func coqCaseSaga(s *Spec, r *Run) string {
 	prox := "PNone"
 	switch s.Mode {
-	case "L1":
+	case "L1", "Jit":
 		prox = "(PL1 " + F(s.Eta0) + ")"
 	case "L2":
 		prox = "(PL2 " + F(s.Eta0) + ")"
@@ -180,8 +183,12 @@ func coqCaseSaga(s *Spec, r *Run) string {
 		prox = "(PTi " + F(s.Eta0) + ")"
 	}
 	two := s.Routine == "saga2d" || s.Routine == "saga2s"
-	rt := fmt.Sprintf("RSaga (mkSg %d%%nat %s %s %s %s %s %s %s)", len(s.Obj.B), F(s.Step0), F(s.Eps), ZI(s.MaxIt), B(s.Hook), prox,
-		B(two), B(s.Routine == "saga1s"))
+	ctor := "RSaga"
+	if s.Routine == "sagajit" {
+		ctor = "RSagaJit"
+	}
+	rt := fmt.Sprintf("%s (mkSg %d%%nat %s %s %s %s %s %s %s)", ctor, len(s.Obj.B), F(s.Step0), F(s.Eps), ZI(s.MaxIt), B(s.Hook), prox,
+		B(two), B(s.Routine == "saga1s" || s.Routine == "sagajit"))
 	evs := make([]string, len(r.Ev))
 	for i, e := range r.Ev {
 		if e.K == "sev" {
@@ -197,7 +204,7 @@ func coqCaseSaga(s *Spec, r *Run) string {
 
 func genSagaSpec(r *Rng) Spec {
 	s := Spec{StopAt: -1, Cap: 4000}
-	s.Routine = []string{"saga1d", "saga1s", "saga2d", "saga2s"}[r.Intn(4)]
+	s.Routine = []string{"saga1d", "saga1s", "saga2d", "saga2s", "sagajit"}[r.Intn(5)]
 	d := 1 + r.Pick([]int{3, 5, 3})
 	n := 1 + r.Pick([]int{2, 4, 3, 2})
 	o := ObjSpec{Kind: "lsq", N: d, ErrAfter: -1, NaNAfter: -1}
@@ -229,7 +236,7 @@ func genSagaSpec(r *Rng) Spec {
 	s.Obj = o
 	s.X0 = genPoint(r, d)
 	if zeroCol >= 0 && r.Intn(4) != 0 {
-		s.X0[zeroCol] = 0 // zero in every iterate: the joint iterator of the stop test ends here
+		s.X0[zeroCol] = 0 // zero in every iterate: before fix 494d9f3 the joint iterator of the stop test ended here (regression generator)
 	}
 	if r.Intn(5) == 0 {
 		for i := range s.X0 {
@@ -247,6 +254,9 @@ func genSagaSpec(r *Rng) Spec {
 		s.Mode, s.Eta0 = "L2", pickF(r, 0.01, 0.1, 1, 10)
 	case 3:
 		s.Mode, s.Eta0 = "Ti", pickF(r, 0.01, 0.1, 1, 10)
+	}
+	if s.Routine == "sagajit" { // saga.Run rejects a regulariser together with a JitUpdate
+		s.Mode, s.Eta0 = "Jit", pickF(r, 0.01, 0.1, 1, 10, 0.001)
 	}
 	s.Hook = r.Intn(10) < 6
 	if s.Hook && r.Intn(4) == 0 {
@@ -282,21 +292,6 @@ func sagaFullRule(xs, x []float64, eps float64) (bool, float64) {
 	return md == 0, md
 }
 
-// does the concrete joint iterator stop early: an index where both are zero before one that matters
-func zeroPrefixCut(xs, x []float64) bool {
-	for i := range x {
-		if xs[i] == 0 && x[i] == 0 {
-			for k := i + 1; k < len(x); k++ {
-				if xs[k] != 0 || x[k] != 0 {
-					return true
-				}
-			}
-			return false
-		}
-	}
-	return false
-}
-
 // sagaOracle checks on the implementation's log of one run of a PURE objective:
 //  1. a nil-error return that is neither a hook stop nor the epoch cap satisfies the stopping
 //     rule between the returned iterate and the iterate at the start of the last epoch (the
@@ -322,11 +317,7 @@ func sagaOracle(s *Spec, r *Run) []Failure {
 		case "shook":
 			_, delta := sagaFullRule(prev, e.X, 0)
 			if !(math.Abs(delta-e.Y) <= 1e-12*math.Max(1, math.Abs(delta))) {
-				site := rt + ".hook_delta"
-				if zeroPrefixCut(prev, e.X) {
-					site = rt + ".hook_delta_zero_prefix"
-				}
-				fs = append(fs, Failure{site, fmt.Sprintf("hook call %d: delta=%v passed with x=%v, previous iterate %v: relative change is %v", nhook, e.Y, e.X, prev, delta)})
+				fs = append(fs, Failure{rt + ".hook_delta", fmt.Sprintf("hook call %d: delta=%v passed with x=%v, previous iterate %v: relative change is %v", nhook, e.Y, e.X, prev, delta)})
 			}
 			if e.Idx != nhook {
 				fs = append(fs, Failure{rt + ".hook_epoch", fmt.Sprintf("hook call %d got epoch %d", nhook, e.Idx)})
@@ -352,11 +343,7 @@ func sagaOracle(s *Spec, r *Run) []Failure {
 			if len(r.Point) == len(xs) {
 				ok, delta := sagaFullRule(xs, r.Point, s.Eps*s.Step0)
 				if !ok {
-					site := rt + ".stop_condition"
-					if zeroPrefixCut(xs, r.Point) {
-						site = rt + ".stop_condition_zero_prefix"
-					}
-					fs = append(fs, Failure{site, fmt.Sprintf("returned %v as converged after %d epochs; previous epoch's iterate %v: relative change %v > epsilon*gamma = %v", r.Point, epochs, xs, delta, s.Eps*s.Step0)})
+					fs = append(fs, Failure{rt + ".stop_condition", fmt.Sprintf("returned %v as converged after %d epochs; previous epoch's iterate %v: relative change %v > epsilon*gamma = %v", r.Point, epochs, xs, delta, s.Eps*s.Step0)})
 				}
 			}
 		}
